@@ -165,9 +165,17 @@ def main():
             # violations already reported were reproduced on the real code before being printed: they stand (exit 1); the part of the
             # check that could not run is recorded as inconclusive in the evidence
             chk.inconclusive_note(f"harness error after {len(chk.violations)} reported violation(s): {type(e).__name__}: {str(e)[:160]}")
-            sys.exit(chk.finish(explanation="run ended by a harness error after violations had been reported", rule="see the check's normal evidence for the rule"))
+            _leave(chk.finish(explanation="run ended by a harness error after violations had been reported", rule="see the check's normal evidence for the rule"))
         sys.exit(2)
-    sys.exit(code)
+    _leave(code)
+
+
+def _leave(code):
+    """end a shard process without interpreter finalisation: tearing down millions of z3 AST references one by one at exit was seen to
+    keep a finished shard (evidence written, summary printed) spinning for more than 20 minutes"""
+    sys.stdout.flush()
+    sys.stderr.flush()
+    os._exit(int(code))
 
 
 if __name__ == "__main__":
